@@ -105,9 +105,10 @@ func VerifHarness_C08() {
 			continue
 		}
 		verifReach("C08.tainted-one")
-		verifAssert("C08.taints-only-untainted", t.class == tcNone)
+		// (in dry mode the taints on the nodes are not consulted: every node not on the tracker is a candidate)
+		verifAssert("C08.taints-only-untainted", dry > 0 || t.class == tcNone)
 		for k, u := range w.nodes {
-			if k == i || u.class != tcNone || attempted[k] {
+			if k == i || (dry == 0 && u.class != tcNone) || attempted[k] {
 				continue
 			}
 			verifReach("C08.left-one-untainted")
